@@ -449,6 +449,12 @@ def docs_mechanism(chk, dprog, cfg):
                 stripped.append(("once", nm, cb, bb, a))
     bad = [s_ for s_ in stripped if s_[0] == "all"]
     once = [s_ for s_ in stripped if s_[0] == "once"]
+    if not stripped and not any(dprog.body(p_).callee_name(t_).endswith("syn::path::Path::is_ident") for p_ in cl for _, t_ in dprog.body(p_).calls()):
+        # generate_docs neither inspects attributes nor touches doc strings itself: the work is done elsewhere (e.g. by a ToTokens type rendered later)
+        DOCD = "corpus declarations with doc comments in every position and form (R9.T: DocParagraphs, the generated family's nine doc forms)"
+        chk.abstain("R9.4", "doc-strip-once", b.where(), "generate_docs does not handle the doc strings itself", cfg, decided_by=DOCD)
+        chk.abstain("R9.4", "doc-attr-recogniser", b.where(), "generate_docs does not inspect attribute names itself", cfg, decided_by=DOCD)
+        return
     for s_ in bad:
         chk.fail("R9.4", "doc-strip-all:" + s_[1], s_[2].where(s_[3]), "doc literals are rewritten with str::%s, which removes more than one leading space / other characters" % s_[1], cfg)
     ok1 = len(once) == 1 and not bad
